@@ -1659,15 +1659,14 @@ def run_huge(case):
         # the names are produced lazily: the first ones are the default names of the variables before the first
         # group, then the labels of its first indices
         ref, g, first = recs[0]
-        take = min(first - 1 + 6, nv)
-        names = list(itertools.islice(F.all_variable_labels(), take))
         want = ['x{}'.format(v) for v in range(1, first)]
         for p in range(min(6, ref.N)):
             want.append(ref.label_of(ref.index_at(p)))
-        want = want[:take]
-        if names[:len(want)] != want:
+        # not one name more: the next group may be a block, whose names are not produced lazily
+        names = list(itertools.islice(F.all_variable_labels(), len(want)))
+        if names != want:
             raise Violation("{} stack of huge groups starting with {}: the first names are {}, expected {}".format(
-                clsname, ref.describe(), names[:len(want)], want))
+                clsname, ref.describe(), names, want))
         labels.add('huge-names-head')
     return Outcome(labels=sorted(labels), nontrivial=nv > (1 << 53))
 
